@@ -806,9 +806,22 @@ def _as_diagram(interp, v):
     return interp.world.as_diagram(v)
 
 
+def _interchange_far(interp, self, i, j, left=None):
+    """spec of a distant move at call sites: only a marker; the abstract contract builds the fresh result"""
+    d = VDiagram(self.dom, self.cod, self.boxes, self.offsets, self.layers)
+    d._far = True
+    d._lo = z3.If(i.t < j.t, i.t, j.t)
+    d._hi = z3.If(i.t < j.t, j.t, i.t)
+    d._src = (i.t, j.t)
+    # a distant move may be refused by one of its adjacent steps
+    if interp.ex.fork(2) == 1:
+        raise PyRaise('InterchangerError', 'some box on the way is connected')
+    return d
+
+
 SPEC_PRIMS = {
     'RawArrow': _raw_arrow, 'RawDiagram': _raw_diagram, 'RawLayer': _raw_layer, 'EmptyTy': _empty_ty,
-    'as_diagram': _as_diagram,
+    'as_diagram': _as_diagram, 'interchange_far': _interchange_far,
 }
 
 
